@@ -101,10 +101,25 @@ func keyOfLoop(l *RangeLoop, v ssa.Value) bool {
 
 // scanDirection classifies how fn's caller walks the block: +1 forward, -1
 // backward, 0 unknown.
+// insArgOf: the instruction handed to a scanner: the argument of the instruction
+// type (the first one; a scanner written as a method of the table has it second).
+func insArgOf(cs CallSite) ssa.Value {
+	for _, x := range cs.Common().Args {
+		if pt, ok := x.Type().(*types.Pointer); ok {
+			if n, ok := pt.Elem().(*types.Named); ok && n.Obj().Name() == "instruction" {
+				return x
+			}
+		}
+	}
+	return cs.Common().Args[0]
+}
+
 func scanDirection(c *Ctx, fn *ssa.Function) (int, *ssa.Function) {
 	for _, caller := range c.Prog.FuncsIn(ModulePath + "/" + pkgDeps) {
 		for _, cs := range CallsTo(caller, fn) {
-			a := cs.Common().Args[0]
+			// the instruction handed to the scanner: the argument of the instruction type
+			// (the first one; a scanner written as a method of the table has it second)
+			a := insArgOf(cs)
 			ld, ok := Unwrap(a).(*ssa.UnOp)
 			if !ok || ld.Op != token.MUL {
 				continue
@@ -112,6 +127,27 @@ func scanDirection(c *Ctx, fn *ssa.Function) (int, *ssa.Function) {
 			ia, ok := ld.X.(*ssa.IndexAddr)
 			if !ok {
 				continue
+			}
+			// a walk that consumes the list by reslicing: the last element of a list
+			// shrinking at its end (backward), the first of one shrinking at its front
+			if ph, isPhi := ia.X.(*ssa.Phi); isPhi {
+				isLenMinus1 := func(v ssa.Value) bool {
+					return matches(v, Bin(token.SUB, lenOf(ph), IntPat(1)))
+				}
+				for _, e := range ph.Edges {
+					sl, ok := e.(*ssa.Slice)
+					if !ok || sl.X != ssa.Value(ph) {
+						continue
+					}
+					if k, isK := ConstInt(ia.Index); isK && k == 0 && sl.High == nil && sl.Low != nil {
+						if lo, ok := ConstInt(sl.Low); ok && lo == 1 {
+							return +1, caller
+						}
+					}
+					if isLenMinus1(ia.Index) && sl.Low == nil && sl.High != nil && isLenMinus1(sl.High) {
+						return -1, caller
+					}
+				}
 			}
 			switch idx := ia.Index.(type) {
 			case *ssa.BinOp:
@@ -341,6 +377,33 @@ func checkC05(c *Ctx) {
 					}
 				}
 			}
+			// the same walk as a counted loop: instrs[i] for i = 0 .. len(instrs)-2
+			if ld, ok := Unwrap(a[0]).(*ssa.UnOp); ok && ld.Op == token.MUL && !fromPrefix {
+				if ia, ok := ld.X.(*ssa.IndexAddr); ok && ia.X == instrs {
+					if ph, ok := ia.Index.(*ssa.Phi); ok {
+						from0, step1 := false, false
+						for _, e := range ph.Edges {
+							if k, isK := ConstInt(e); isK && k == 0 {
+								from0 = true
+							}
+							if matches(e, Bin(token.ADD, func(v ssa.Value, _ *Bind) bool { return v == ssa.Value(ph) }, IntPat(1))) {
+								step1 = true
+							}
+						}
+						toEnd := false
+						if iff, ok := ph.Block().Instrs[len(ph.Block().Instrs)-1].(*ssa.If); ok {
+							if bo, ok := iff.Cond.(*ssa.BinOp); ok && bo.X == ssa.Value(ph) && (bo.Op == token.LSS || bo.Op == token.NEQ) &&
+								matches(bo.Y, Bin(token.SUB, lenOf(instrs), IntPat(1))) {
+								toEnd = true
+							}
+						}
+						if from0 && step1 && toEnd {
+							fromPrefix = true
+							ctlLoop = &RangeLoop{Header: ph.Block()}
+						}
+					}
+				}
+			}
 			guarded := false
 			for _, g := range GuardsOf(cs.Block()) {
 				bo, ok := g.Cond.(*ssa.BinOp)
@@ -466,15 +529,58 @@ func fullWalk(caller, scannerFn *ssa.Function, dir int) (bool, string) {
 	}
 	instrs := ssa.Value(caller.Params[0])
 	for _, cs := range CallsTo(caller, scannerFn) {
-		ld, ok := Unwrap(cs.Common().Args[0]).(*ssa.UnOp)
+		ld, ok := Unwrap(insArgOf(cs)).(*ssa.UnOp)
 		if !ok {
 			return false, "scanner is not given an element of the sequence"
 		}
 		ia, ok := ld.X.(*ssa.IndexAddr)
-		if !ok || ia.X != instrs {
+		if !ok {
 			return false, "scanner is not given an element of the caller's own sequence"
 		}
 		isCall := func(in ssa.Instruction) bool { return in == cs.Instr.(ssa.Instruction) }
+		// the walk that consumes the sequence by reslicing: a list variable that
+		// starts as the whole sequence, loses its last (backward) or first (forward)
+		// element every round, and is walked until it is empty
+		if ph, isPhi := ia.X.(*ssa.Phi); isPhi {
+			whole, shrinks := false, false
+			for _, e := range ph.Edges {
+				if e == instrs {
+					whole = true
+				}
+				sl, ok := e.(*ssa.Slice)
+				if !ok || sl.X != ssa.Value(ph) {
+					continue
+				}
+				lenM1 := Bin(token.SUB, lenOf(ph), IntPat(1))
+				if dir < 0 && sl.Low == nil && sl.High != nil && matches(sl.High, lenM1) && matches(ia.Index, lenM1) {
+					shrinks = true
+				}
+				if lo, isK := ConstInt(sl.Low); dir > 0 && sl.Low != nil && isK && lo == 1 && sl.High == nil {
+					if k, ok := ConstInt(ia.Index); ok && k == 0 {
+						shrinks = true
+					}
+				}
+			}
+			untilEmpty := false
+			if iff, ok := ph.Block().Instrs[len(ph.Block().Instrs)-1].(*ssa.If); ok {
+				if bo, ok := iff.Cond.(*ssa.BinOp); ok && matches(bo.X, lenOf(ph)) {
+					z, isZ := ConstInt(bo.Y)
+					if isZ && ((bo.Op == token.GTR && z == 0) || (bo.Op == token.NEQ && z == 0) || (bo.Op == token.GEQ && z == 1)) {
+						untilEmpty = true
+						if ok2, _ := EveryIterationPasses(iff.Block().Succs[0], ph.Block(), isCall); !ok2 {
+							return false, "the scanner is skipped for some instructions (the call is conditional inside the walk): dependencies of those instructions are never recorded"
+						}
+					}
+				}
+			}
+			if !whole || !shrinks || !untilEmpty {
+				return false, "the walk by reslicing does not start with the whole sequence, drop one element per round at the right end, and run until the list is empty"
+			}
+			continue
+		}
+		if ia.X != instrs {
+			return false, "scanner is not given an element of the caller's own sequence"
+		}
 		if dir > 0 {
 			found := false
 			for _, l := range RangeLoops(caller) {
@@ -781,9 +887,19 @@ func checkC06(c *Ctx) {
 									reach = true
 								}
 							})
-							// a later iteration of the same loop does not count when the update is in the lookup's own loop after it
+							// a later iteration of the same loop does not count when the update is in the
+							// lookup's own loop after it - provided the loop walks a set (a map: every key
+							// once); the keys of a list (the stores of an instruction) can repeat
 							if reach && !InstrDominates(lk, mu) {
 								selfFirst = true
+							}
+							if reach && InstrDominates(lk, mu) {
+								for _, l := range RangeLoops(fn) {
+									lb := LoopBlocks(l.Header)
+									if lb[lk.Block()] && lb[mu.Block()] && !l.IsMap && keyOfLoop(l, lk.Index) {
+										selfFirst = true
+									}
+								}
 							}
 						}
 					}
@@ -794,7 +910,7 @@ func checkC06(c *Ctx) {
 				case !keyOK:
 					c.Fail("C06.g", key, pos, "the looked-up key is not one the current instruction reads or writes")
 				case selfFirst && !neq:
-					c.Fail("C06.g", key, pos, "the instruction records itself before the lookup and the entry is not checked to differ from it")
+					c.Fail("C06.g", key, pos, "the instruction records itself before the lookup (earlier in the function, or in an earlier round of a loop over a list whose keys can repeat) and the entry is not checked to differ from it: an edge from the instruction to itself")
 				default:
 					c.Pass("C06.g", key, pos, "")
 				}
